@@ -416,7 +416,7 @@ def call_container_method(I: Interp, recv: SV, name: str, args, kwargs, fr: Fram
             if len(args) > 1:
                 res = I.merge(has, v, I.to_sv(args[1]))
             else:
-                st.oblige("safety", "pop_key", has, line)
+                I.safety("KeyError", "pop_key", has, line)
                 res = v
                 st.assume_wt(v)
             I.dict_del(recv, key)
